@@ -623,6 +623,7 @@ func c13DoubleCloseThenGC(c *vf.Case, ioc *sonic.IO) {
 			completed := 0
 			var trigger func()
 			var peerFd = -1
+			vfd, vev := -1, int16(unix.POLLIN)
 			func() {
 				sentinel := &c13Sentinel{}
 				runtime.SetFinalizer(sentinel, func(*c13Sentinel) { *finalized = 1 })
@@ -634,12 +635,14 @@ func c13DoubleCloseThenGC(c *vf.Case, ioc *sonic.IO) {
 					}
 					sa, _ := syscall.Getsockname(l.RawFd())
 					port := sa.(*syscall.SockaddrInet4).Port
+					vfd = l.RawFd()
 					l.AsyncAccept(func(err error, cn sonic.Conn) {
 						completed++
 						if cn != nil {
 							cn.Close()
 						}
 						_ = sentinel.pad[0]
+						_ = l.Close() // the victim owns its descriptor: released once its completion has arrived
 					})
 					trigger = func() { peerFd, _, _ = rawpeer.Connect4(port) }
 				case "packet-conn-read":
@@ -650,7 +653,8 @@ func c13DoubleCloseThenGC(c *vf.Case, ioc *sonic.IO) {
 					sa, _ := syscall.Getsockname(p.RawFd())
 					pfd, _, _ := rawpeer.UDP4([4]byte{127, 0, 0, 1})
 					peerFd = pfd
-					p.AsyncReadFrom(make([]byte, 16), func(err error, n int, _ net.Addr) { completed++; _ = sentinel.pad[0] })
+					vfd = p.RawFd()
+					p.AsyncReadFrom(make([]byte, 16), func(err error, n int, _ net.Addr) { completed++; _ = sentinel.pad[0]; _ = p.Close() })
 					trigger = func() { _ = syscall.Sendto(pfd, []byte("x"), 0, sa) }
 				case "udp-peer-read":
 					p, err := multicast.NewUDPPeer(ioc, "udp", "127.0.0.1:0")
@@ -660,7 +664,8 @@ func c13DoubleCloseThenGC(c *vf.Case, ioc *sonic.IO) {
 					port := p.LocalAddr().Port
 					pfd, _, _ := rawpeer.UDP4([4]byte{127, 0, 0, 1})
 					peerFd = pfd
-					p.AsyncRead(make([]byte, 16), func(err error, n int, _ netip.AddrPort) { completed++; _ = sentinel.pad[0] })
+					vfd = p.NextLayer().RawFd()
+					p.AsyncRead(make([]byte, 16), func(err error, n int, _ netip.AddrPort) { completed++; _ = sentinel.pad[0]; _ = p.Close() })
 					trigger = func() {
 						_ = syscall.Sendto(pfd, []byte("x"), 0, &syscall.SockaddrInet4{Addr: [4]byte{127, 0, 0, 1}, Port: port})
 					}
@@ -675,7 +680,8 @@ func c13DoubleCloseThenGC(c *vf.Case, ioc *sonic.IO) {
 					peerFd = pfd
 					saved := ioc.Dispatched
 					ioc.Dispatched = sonic.MaxCallbackDispatch
-					cn.AsyncRead(make([]byte, 16), func(err error, n int) { completed++; _ = sentinel.pad[0] })
+					vfd = cn.RawFd()
+					cn.AsyncRead(make([]byte, 16), func(err error, n int) { completed++; _ = sentinel.pad[0]; _ = cn.Close() })
 					ioc.Dispatched = saved
 					trigger = func() { _, _ = rawpeer.WriteSome(pfd, []byte("x")) }
 				}
@@ -701,11 +707,11 @@ func c13DoubleCloseThenGC(c *vf.Case, ioc *sonic.IO) {
 				return
 			}
 			trigger()
-			for i := 0; i < 400 && completed == 0; i++ {
-				_ = ioc.RunOneFor(time.Millisecond)
-			}
-			if completed != 1 {
-				c.Failf("second-close-broke-another-objects-operation/"+a.name, "closing a %s twice, with a %s created in between: the %s's deferred operation completed %d times", a.name, vk, vk, completed)
+			why := c13Await(ioc, vfd, vev, &completed)
+			if why == "skip" {
+				c.Count("probes_skipped_trigger_never_reached_the_descriptor", 1)
+			} else if completed != 1 {
+				c.Failf("second-close-broke-another-objects-operation/"+a.name, "closing a %s twice, with a %s created in between: the %s's deferred operation completed %d times (%s)", a.name, vk, vk, completed, why)
 				return
 			}
 			if peerFd >= 0 {
@@ -717,6 +723,37 @@ func c13DoubleCloseThenGC(c *vf.Case, ioc *sonic.IO) {
 }
 
 type c13Sentinel struct{ pad [64]byte }
+
+// c13Await polls the loop until the victim's completion arrives. The verdict is taken on logical steps: only once
+// poll(2) reports the victim's own descriptor ready (the kernel did deliver the trigger to THIS socket) does the loop
+// get a bounded number of cycles to dispatch it. Returns "" when completed, "skip" when the kernel never made the
+// descriptor ready within the generous wall-clock bound (nothing to judge), else the reason for a violation.
+func c13Await(ioc *sonic.IO, vfd int, events int16, completed *int) string {
+	readyCycles := 0
+	deadline := time.Now().Add(8 * time.Second)
+	for *completed == 0 {
+		if vfd >= 0 {
+			rev := rawpeer.Ready(vfd, events)
+			if rev&unix.POLLNVAL != 0 {
+				return "its descriptor is no longer open"
+			}
+			if rev&(events|unix.POLLHUP|unix.POLLERR) != 0 {
+				readyCycles++
+				if readyCycles > 300 {
+					return "poll(2) reports its descriptor ready and 300 loop cycles did not dispatch it"
+				}
+			}
+		}
+		if time.Now().After(deadline) {
+			if vfd < 0 {
+				return "the loop was run for 8 s"
+			}
+			return "skip"
+		}
+		_ = ioc.RunOneFor(time.Millisecond)
+	}
+	return ""
+}
 
 // c13GC: an object with a deferred operation whose every user reference is dropped must survive the GC
 // and still deliver its completion.
@@ -733,6 +770,7 @@ func c13GC(c *vf.Case, ioc *sonic.IO) {
 		var gotErr error
 		var peerFd int = -1
 		var trigger func()
+		vfd, vev := -1, int16(unix.POLLIN)
 		// everything the application holds lives inside this function call
 		func() {
 			sentinel := &c13Sentinel{}
@@ -750,11 +788,13 @@ func c13GC(c *vf.Case, ioc *sonic.IO) {
 				peerFd = pfd
 				saved := ioc.Dispatched
 				ioc.Dispatched = sonic.MaxCallbackDispatch
+				vfd = cn.RawFd()
 				if kind == "conn-read" {
-					cn.AsyncRead(make([]byte, 16), func(err error, n int) { completed++; gotN, gotErr = n, err; _ = sentinel.pad[0] })
+					cn.AsyncRead(make([]byte, 16), func(err error, n int) { completed++; gotN, gotErr = n, err; _ = sentinel.pad[0]; _ = cn.Close() })
 					trigger = func() { _, _ = rawpeer.WriteSome(pfd, []byte("0123456789")) }
 				} else {
-					cn.AsyncWrite([]byte("0123456789"), func(err error, n int) { completed++; gotN, gotErr = n, err; _ = sentinel.pad[0] })
+					vev = unix.POLLOUT
+					cn.AsyncWrite([]byte("0123456789"), func(err error, n int) { completed++; gotN, gotErr = n, err; _ = sentinel.pad[0]; _ = cn.Close() })
 					trigger = func() {}
 				}
 				ioc.Dispatched = saved
@@ -767,7 +807,8 @@ func c13GC(c *vf.Case, ioc *sonic.IO) {
 				sa, _ := syscall.Getsockname(p.RawFd())
 				pfd, _, _ := rawpeer.UDP4([4]byte{127, 0, 0, 1})
 				peerFd = pfd
-				p.AsyncReadFrom(make([]byte, 16), func(err error, n int, _ net.Addr) { completed++; gotN, gotErr = n, err; _ = sentinel.pad[0] })
+				vfd = p.RawFd()
+				p.AsyncReadFrom(make([]byte, 16), func(err error, n int, _ net.Addr) { completed++; gotN, gotErr = n, err; _ = sentinel.pad[0]; _ = p.Close() })
 				trigger = func() { _ = syscall.Sendto(pfd, []byte("0123456789"), 0, sa) }
 			case "udp-peer-read":
 				p, err := multicast.NewUDPPeer(ioc, "udp", "127.0.0.1:0")
@@ -778,7 +819,8 @@ func c13GC(c *vf.Case, ioc *sonic.IO) {
 				port := p.LocalAddr().Port
 				pfd, _, _ := rawpeer.UDP4([4]byte{127, 0, 0, 1})
 				peerFd = pfd
-				p.AsyncRead(make([]byte, 16), func(err error, n int, _ netip.AddrPort) { completed++; gotN, gotErr = n, err; _ = sentinel.pad[0] })
+				vfd = p.NextLayer().RawFd()
+				p.AsyncRead(make([]byte, 16), func(err error, n int, _ netip.AddrPort) { completed++; gotN, gotErr = n, err; _ = sentinel.pad[0]; _ = p.Close() })
 				trigger = func() {
 					_ = syscall.Sendto(pfd, []byte("0123456789"), 0, &syscall.SockaddrInet4{Addr: [4]byte{127, 0, 0, 1}, Port: port})
 				}
@@ -790,6 +832,7 @@ func c13GC(c *vf.Case, ioc *sonic.IO) {
 				}
 				sa, _ := syscall.Getsockname(l.RawFd())
 				port := sa.(*syscall.SockaddrInet4).Port
+				vfd = l.RawFd()
 				l.AsyncAccept(func(err error, cn sonic.Conn) {
 					completed++
 					gotErr = err
@@ -798,6 +841,7 @@ func c13GC(c *vf.Case, ioc *sonic.IO) {
 						cn.Close()
 					}
 					_ = sentinel.pad[0]
+					_ = l.Close()
 				})
 				trigger = func() {
 					fd, _, _ := rawpeer.Connect4(port)
@@ -809,7 +853,7 @@ func c13GC(c *vf.Case, ioc *sonic.IO) {
 					c.Failf("harness-setup", "%v", err)
 					return
 				}
-				_ = t.ScheduleOnce(3*time.Millisecond, func() { completed++; gotN = 10; _ = sentinel.pad[0] })
+				_ = t.ScheduleOnce(3*time.Millisecond, func() { completed++; gotN = 10; _ = sentinel.pad[0]; _ = t.Close() })
 				trigger = func() { time.Sleep(4 * time.Millisecond) }
 			}
 		}()
@@ -840,14 +884,14 @@ func c13GC(c *vf.Case, ioc *sonic.IO) {
 				runtime.GC()
 			}
 		})
-		for i := 0; i < 400 && completed == 0; i++ {
-			_ = ioc.RunOneFor(time.Millisecond)
-		}
+		why := c13Await(ioc, vfd, vev, &completed)
 		sonic.VerifSetPoint(nil)
 		c.Count("collections_inside_a_poll_batch", gcInBatch)
-		c.Logf("%s: after GC x4 + heap churn: completed=%d n=%d err=%v", kind, completed, gotN, gotErr)
-		if completed != 1 || gotErr != nil || gotN != 10 {
-			c.Failf("completion-not-delivered-after-gc/"+kind, "%s: after the garbage collector ran, the completion was delivered %d times with n=%d err=%v", kind, completed, gotN, gotErr)
+		c.Logf("%s: after GC x4 + heap churn: completed=%d n=%d err=%v %s", kind, completed, gotN, gotErr, why)
+		if why == "skip" {
+			c.Count("probes_skipped_trigger_never_reached_the_descriptor", 1)
+		} else if completed != 1 || gotErr != nil || gotN != 10 {
+			c.Failf("completion-not-delivered-after-gc/"+kind, "%s: after the garbage collector ran, the completion was delivered %d times with n=%d err=%v (%s)", kind, completed, gotN, gotErr, why)
 		}
 		if peerFd >= 0 {
 			syscall.Close(peerFd)
